@@ -114,6 +114,7 @@ reg = {
         "x_region.rs": "src/tree_store/page_store/region.rs",
         "x_tracker.rs": "src/transaction_tracker.rs",
         "x_unpersisted.rs": "src/tree_store/page_store/page_manager.rs",
+        "x_spstate.rs": "src/transactions.rs",
     },
     # bounded Kani twins of Verus obligations: run only after a Verus refutation, to look for a concrete failing input
     "twins": {
@@ -150,6 +151,7 @@ NATIVE = {
     "X-pins4": {"id": "X-pins4", "test": "xb_tracker_contracts_depth4", "bound": "same, <= 4 calls", "tier": "thorough"},
     "X-unp3": {"id": "X-unp3", "test": "xb_unpersisted_contracts_depth3", "bound": "every sequence of <= 3 calls of the 11 mutating UnpersistedState operations over 3 pages and transaction ids {1,2,3}; per-call contract with full frame against a ghost model, representation invariant (allocation_txn is the reverse index of allocations, no empty records, post_commit_allocations subset of pages), allocations_after / data_freed_in_range(all bounds) / pages_pending_free / contains compared after every call"},
     "X-unp4": {"id": "X-unp4", "test": "xb_unpersisted_contracts_depth4", "bound": "same, <= 4 calls over 2 pages", "tier": "thorough"},
+    "X-spstate": {"id": "X-spstate", "test": "xb_savepoint_state_contracts", "bound": "every combination of <= 3 persistent savepoints on 2 transactions (shared transactions included), every subset recorded as created / deleted (both orders) / invalidated, apply_on_commit and apply_on_abort: validity of every savepoint, the exact multiset of pins left in the tracker, and the emptied local state"},
     "X-trk-ser": {"id": "C14-X-trk-ser", "test": "x14_region_tracker_roundtrip", "bound": "1..130 regions, 8 mark patterns"},
 }
 P["C14"] = {
@@ -234,8 +236,8 @@ P["C06"] = {
 P["C07"] = {
     "level": "proof",
     "kani": [K["C07-K1s"], K["C07-K1n"]],
-    "native": [dict(NATIVE["X-pins3"], id="C07-X-pins3"), dict(NATIVE["X-pins4"], id="C07-X-pins4"), dict(NATIVE["X-unp3"], id="C07-X-unp3")],
-    "explanation": "Kernel: the persistent-savepoint record round trip (id, transaction id, user root) and its byte layout, for every id and every root header. BOUNDED (native): the savepoint bookkeeping of the real TransactionTracker - every registered savepoint holds exactly one pin on its transaction until it is deallocated, invalidation keeps the pins, oldest_savepoint_excluding / list_savepoints_after / any_*_savepoint_exists agree with the set of valid savepoints.",
+    "native": [dict(NATIVE["X-pins3"], id="C07-X-pins3"), dict(NATIVE["X-pins4"], id="C07-X-pins4"), dict(NATIVE["X-unp3"], id="C07-X-unp3"), dict(NATIVE["X-spstate"], id="C07-X-spstate")],
+    "explanation": "Kernel: the persistent-savepoint record round trip (id, transaction id, user root) and its byte layout, for every id and every root header. BOUNDED (native): the savepoint bookkeeping of the real TransactionTracker - every registered savepoint holds exactly one pin on its transaction until it is deallocated, invalidation keeps the pins, oldest_savepoint_excluding / list_savepoints_after / any_*_savepoint_exists agree with the set of valid savepoints; the transaction-local SavepointTransactionState: a commit releases the pins of deleted savepoints and invalidates restored-over ones without touching their pins, an abort releases exactly the savepoints created in the transaction, both leave the local state empty.",
     "not_decided": "restore semantics (restore_savepoint_inner), histories, crash; malformed-record error returns; the tracker and the unpersisted allocation records beyond the stated call-sequence bound",
 }
 P["C09"] = {
